@@ -24,6 +24,8 @@ DOWN_SITES = {
     ("BD_Shape", "simplify_using_context_assign", "neg_assign_r", "ROUND_DOWN"): "builds the complement constraint of one that is violated by the context (a lower bound on the opposite difference): rounding it down keeps the simplified shape within the documented enlargement",
     ("Octagonal_Shape", "simplify_using_context_assign", "neg_assign_r", "ROUND_DOWN"): "as for BD_Shape",
     ("Octagonal_Shape", "linear_form_upper_bound", "div_2exp_assign_r", "ROUND_DOWN"): "halves the negated unary bound, i.e. the variable's LOWER bound (used as such in the max/min that follows): lower bounds round down",
+    ("BD_Shape", "export_interval_constraints", "neg_assign_r", "ROUND_DOWN"): "exports the variable's LOWER bound as the negation of the stored upper bound of 0 - x: lower bounds round down",
+    ("Octagonal_Shape", "export_interval_constraints", "div_2exp_assign_r", "ROUND_DOWN"): "halves the negated stored bound, i.e. the variable's LOWER bound: lower bounds round down",
     ("Octagonal_Shape", "contains_integer_point", "assign_r", "ROUND_DOWN"): "builds an integer octagon with bounds floored: exact for the integer points being searched",
 }
 
@@ -104,7 +106,7 @@ def r3_1_2(ctx, fx):
         ctx.count("R3.1", d, k)
     ctx.ok("R3.1", "all other direction arguments are upward / not-needed", "src")
     ctx.floor("R3.1", counts.get("ROUND_UP", 0), 500, "ROUND_UP call sites seen (instantiated)")
-    ctx.floor("R3.1", n1, 6, "downward-rounding sites")
+    ctx.floor("R3.1", n1, 8, "downward-rounding sites")
     ctx.ok("R3.2", "all other ROUND_NOT_NEEDED uses have exact operations or exact destinations", "src")
     ctx.floor("R3.2", counts.get("ROUND_NOT_NEEDED", 0), 300, "ROUND_NOT_NEEDED call sites seen (instantiated)")
 
